@@ -80,7 +80,7 @@ func main() {
 	r := ev.Start("C16")
 	defer r.RecoverMain()
 	defer world.Cleanup()
-	r.SetBudget(ev.Pick(r, 150*time.Second, 30*time.Minute))
+	r.SetBudget(ev.Pick(r, 400*time.Second, 30*time.Minute))
 	r.Assume("bounded liveness: after the explored part of an execution, faults stop, in-progress work completes and two more storage polls fire (closing phase); then the newest decodable snapshot of every other instance must have been returned by Next()",
 		"re-delivery of an older or already delivered snapshot is not a violation (merging is idempotent)",
 		"memory limits are read from the lightningstream_climit_active gauge at every quiescent point")
@@ -93,6 +93,9 @@ func main() {
 		{"recv-limits-1-1", recvworld.Cfg{DownloadLimit: 1, DecompressLimit: 1, Instances: []string{"b", "c"}, Faults: true, Polls: 1}},
 		{"recv-corrupt-newest", recvworld.Cfg{DownloadLimit: 1, DecompressLimit: 1, Instances: []string{"b", "c"}, Corrupt: []string{"b:newest"}, Polls: 1}},
 		{"recv-corrupt-both-limit2", recvworld.Cfg{DownloadLimit: 2, DecompressLimit: 2, Instances: []string{"b", "c"}, Corrupt: []string{"b:newest", "c:only"}, Polls: 1}},
+		// an instance whose only snapshot is cleaned while its download keeps failing, and which publishes again later
+		{"recv-instance-disappears-and-returns", recvworld.Cfg{DownloadLimit: 2, DecompressLimit: 2, Instances: []string{"b", "c"}, Single: []string{"c"}, Faults: true, Vanish: true, Republish: true,
+			Script: []string{"dl:c@st.load=fail", "newest-of-c-cleaned"}, Polls: 3}},
 		{"recv-publish-vanish", recvworld.Cfg{DownloadLimit: 2, DecompressLimit: 1, Instances: []string{"b", "c"}, Publish: true, Vanish: true, Polls: ev.Pick(r, 1, 2)}},
 	}
 	if r.Thorough() {
@@ -119,10 +122,11 @@ func main() {
 		// instance is undecodable: the run must still end by itself
 		for _, corrupt := range []string{"only", "newest"} {
 			if r.Expired() {
+				r.AddPart(&ev.Part{Name: name + "-fresh-corrupt-" + corrupt, Engine: "E3", Exhaustive: false, Bound: "not started: time budget used up"})
 				continue
 			}
 			xrun.Explore(r, name+"-fresh-corrupt-"+corrupt, xrun.Opts{Kind: "once", Bound: ev.Pick(r, 1, 2), Budget: 30, Recycle: 4,
-				Param: loopworld.Cfg{Native: native, OnlyOnce: true, EmptyStart: true, Corrupt: corrupt, LoadFaults: true, MaxVisits: 1, AppOps: []string{"put-b"}}})
+				Param: loopworld.Cfg{Native: native, OnlyOnce: true, EmptyStart: true, Corrupt: corrupt, LoadFaults: true, LoopFirst: true, MaxVisits: 1, AppOps: []string{"put-b"}}})
 		}
 	}
 	r.Finish()
